@@ -1107,3 +1107,8 @@ def select_for_mode(case, mode, tier):
     if case["op"] == "csv_typed":
         return case.get("_n", 0) % 7 == 0
     return case.get("_n", 0) % (7 if mode == "nojit" else 11) == 0 or "_corpus" in case
+
+
+# the translated kernels of this property (Gen/Kernels.lean) are run against the real compiled kernels as well
+from checks.harness import genkernels  # noqa: E402
+genkernels.install(globals(), "C06")
